@@ -351,10 +351,11 @@ class sptensor:
             # Identify only the unique indices
             newsubs, loc = np.unique(subs, axis=0, return_inverse=True)
             # Sum the corresponding values
-            # Squeeze to convert from column vector to row vector
+            # Flatten to convert from column vector to row vector (not squeeze: a single
+            # value would become a scalar, which accumarray only accepts for sum)
             newvals = accumarray(
                 loc.flatten(),
-                np.squeeze(vals),
+                np.reshape(vals, (-1,)),
                 size=newsubs.shape[0],
                 func=function_handle,
             )
